@@ -5,6 +5,7 @@ import (
 	"go/ast"
 	"go/token"
 	"go/types"
+	"sort"
 	"strings"
 
 	"golang.org/x/tools/go/ssa"
@@ -22,6 +23,7 @@ func init() {
 		ruleM6(c, "C19.M6")
 		ruleM7(c, "C19.M7")
 		ruleV3(c, "C19.M8")
+		ruleM9(c, "C19.M9")
 	}
 }
 
@@ -689,4 +691,51 @@ func straightToFalse(b *ssa.BasicBlock) bool {
 		}
 	}
 	return false
+}
+
+// ruleM9: a refusal decided is a refusal returned.  When a handler's status
+// variable takes an error constant on a path (the request exceeds a limit, the
+// object has the wrong kind, ...), no later assignment on that path may turn
+// the reply into a success: the rest of the request would take effect and be
+// acknowledged although it was found unacceptable.
+func ruleM9(c *Ctx, id string) {
+	R, P := c.R, c.P
+	R.Rule(id, "a refusal decided is a refusal returned: on no path of a handler is a success status returned after its status variable took an error constant", 20)
+	t := c.tsPreamble(id)
+	type agg struct {
+		ok  bool
+		why string
+		pos string
+		n   int
+	}
+	res := map[string]*agg{}
+	for _, sn := range t.Snaps {
+		if !isProc(c, sn.Entry) {
+			continue
+		}
+		cls, _ := statusClass(sn)
+		key := fmt.Sprintf("%s|return#%d|%s", sn.Entry, retOrdinal(sn.Ret), cls)
+		a := res[key]
+		if a == nil {
+			a = &agg{ok: true, pos: P.Pos(sn.Ret.Pos())}
+			res[key] = a
+		}
+		a.n++
+		if cls != "ok" {
+			continue
+		}
+		if rf, had := sn.G.Cells["$refusal"]; had {
+			a.ok = false
+			a.why = fmt.Sprintf("the status variable took the error %d at %s, and the reply is NFS3_OK", rf.I, rf.Src)
+		}
+	}
+	var keys []string
+	for k := range res {
+		keys = append(keys, k)
+	}
+	sort.Strings(keys)
+	for _, k := range keys {
+		a := res[k]
+		R.Check(a.ok, id, k, a.pos, "no success reply on a path on which an error status was decided", fmt.Sprintf("%d abstract end states", a.n), a.why+": a request found unacceptable (too big, wrong kind, ...) is carried out in part and acknowledged")
+	}
 }
